@@ -53,6 +53,34 @@ type CfgWrap struct {
 	WEmb
 }
 
+// Verify: the wrapped config type rejects one particular value, so that
+// rejections travel through the wrappers too.
+func (c *CfgWrap) Verify() error {
+	if c.Stamp&rejectBit != 0 {
+		return fmt.Errorf("%w: stamp=%#x", errVerify, c.Stamp)
+	}
+	return nil
+}
+
+// (the stamp leaf is set by the wrapped source alone, so no other layer can
+// make a spoilt value acceptable again)
+const rejectBit = 1 << 50
+
+// spoil makes an inner-layout value one that Verify rejects.
+func spoil(v reflect.Value) reflect.Value {
+	e := v
+	if e.Kind() == reflect.Ptr {
+		e = e.Elem()
+	}
+	f := e.FieldByName("Stamp")
+	st := uint64(rejectBit)
+	if !f.IsNil() {
+		st |= f.Elem().Uint()
+	}
+	f.Set(reflect.ValueOf(&st))
+	return v
+}
+
 const aliasSuffix = "_alias9wr876rw3"
 
 func manglersFor(names []string) []transform.Mangler {
@@ -303,6 +331,9 @@ func genWrap(seed uint64, faulty bool) *Scenario {
 			if g.pct(50) {
 				op.Ctx = "call"
 			}
+			if faulty && (k == "set-static" || k == "set-watch") && g.pct(20) {
+				op.Str = "invalid" // a value the config's Verify rejects
+			}
 			c.Ops = append(c.Ops, op)
 		case g.pct(15):
 			c.Ops = append(c.Ops, Op{K: "sleep", D: int64(g.in(1, 300)) * 1e6})
@@ -315,11 +346,23 @@ func genWrap(seed uint64, faulty bool) *Scenario {
 		default:
 			c.Ops = append(c.Ops, Op{K: "report", N: int(g.id())})
 		}
+		if last := &c.Ops[len(c.Ops)-1]; faulty && (last.K == "breport" || last.K == "report") && g.pct(15) {
+			last.Str = "invalid"
+		}
 	}
 	if w.Kind != "blank-only" {
 		// a second, plain watching source in both twins
 		b := ClientSpec{Name: "plain", Kind: "plain"}
-		for i, n := 0, g.in(0, 4); i < n; i++ {
+		nPlain := g.in(0, 4)
+		for i := range c.Ops {
+			if c.Ops[i].Str == "invalid" {
+				// a rejected value stays in its slot and makes every later stack
+				// unacceptable until it is replaced: the other source keeps quiet
+				// in such runs, so that the twins cannot drift apart meanwhile
+				nPlain = 0
+			}
+		}
+		for i, n := 0, nPlain; i < n; i++ {
 			if g.pct(20) {
 				b.Ops = append(b.Ops, Op{K: "sleep", D: int64(g.in(1, 300)) * 1e6})
 			} else if g.pct(50) {
@@ -369,6 +412,7 @@ type wInner struct {
 	own     string
 	both    bool
 	failVal bool
+	invalid bool // the value is one Verify rejects
 	vals    int
 }
 
@@ -378,6 +422,9 @@ func (s *wInner) Value(_ context.Context, t *dials.Type) (reflect.Value, error) 
 		return reflect.Value{}, errInner
 	}
 	s.vals++
+	if s.invalid {
+		return spoil(innerValue(t, s.id, s.own, s.both)), nil
+	}
 	return innerValue(t, s.id, s.own, s.both), nil
 }
 
@@ -801,6 +848,22 @@ func (r *wrapRun) wrapped(c *ClientSpec, blank *sourcewrap.Blank, inner *wInnerW
 			panic(err)
 		}
 	}
+	// mirrorInvalid: the unwrapped twin gets the same rejected value (a rejected
+	// value stays in its source's slot and spoils later stacks on both sides alike)
+	mirrorInvalid := func(id uint64, blocking bool) {
+		v, err := nativeValue(nat.typ, names, id, "Stamp")
+		if err != nil {
+			panic(err)
+		}
+		spoil(v)
+		if blocking {
+			if err = nat.wa.BlockingReportNewValue(r.ctx, v); err == nil || !errors.Is(err, errVerify) {
+				panic(fmt.Sprintf("the unwrapped twin accepted a spoilt value: %v", err))
+			}
+		} else if err = nat.wa.ReportNewValue(r.ctx, v); err != nil {
+			panic(err)
+		}
+	}
 	var blankInner *wInner
 	// callCtx: SetSource is often called with a context of its own that ends
 	// as soon as the call has returned (a per-request timeout)
@@ -826,6 +889,27 @@ func (r *wrapRun) wrapped(c *ClientSpec, blank *sourcewrap.Blank, inner *wInnerW
 				continue
 			}
 			v := innerValue(inner.typ, id, "Stamp", op.K == "report-both")
+			if op.Str == "invalid" {
+				// rejected by Verify: the blocking reporter is told, nothing changes
+				before := r.W.View()
+				var err error
+				if op.K == "breport" {
+					err = inner.wa.BlockingReportNewValue(r.ctx, spoil(v))
+					if err == nil || !errors.Is(err, errVerify) {
+						r.fail("C20.error-swallowed", "a blocking report through the wrapper of a value that Verify rejects returned %v", err)
+					}
+				} else {
+					err = inner.wa.ReportNewValue(r.ctx, spoil(v))
+					simrt.Yield("after-invalid-report")
+				}
+				_ = before
+				if got := r.W.View().Stamp; op.K == "breport" && got&rejectBit != 0 {
+					r.fail("C20.update", "a rejected blocking report through the wrapper is visible (stamp %#x)", got)
+				}
+				mirrorInvalid(id, op.K == "breport")
+				r.probes["rejected-update-through-wrapper"]++
+				continue
+			}
 			var err error
 			if op.K == "breport" {
 				err = inner.wa.BlockingReportNewValue(r.ctx, v)
@@ -856,7 +940,7 @@ func (r *wrapRun) wrapped(c *ClientSpec, blank *sourcewrap.Blank, inner *wInnerW
 			}
 			inner.wa.ReportError(r.ctx, fmt.Errorf("%s", op.Str))
 		case "set-static", "set-fail":
-			in := &wInner{id: id, own: "Stamp", failVal: op.K == "set-fail"}
+			in := &wInner{id: id, own: "Stamp", failVal: op.K == "set-fail", invalid: op.Str == "invalid"}
 			var src dials.Source = in
 			if (r.sc.Wrap.Kind == "blank-twatch" || len(names) > 0) && r.sc.Wrap.Kind != "blank-inside-t" {
 				src = sourcewrap.NewTransformingSource(in, mg...)
@@ -876,6 +960,15 @@ func (r *wrapRun) wrapped(c *ClientSpec, blank *sourcewrap.Blank, inner *wInnerW
 			case op.K == "set-fail":
 				if err == nil || !errors.Is(err, errInner) {
 					r.fail("C20.error-swallowed", "SetSource of a failing source returned %v", err)
+				}
+			case op.Str == "invalid":
+				r.probes["setsource-rejected-by-verify"]++
+				if err == nil || !errors.Is(err, errVerify) {
+					r.fail("C20.error-swallowed", "SetSource of a source whose value Verify rejects returned %v", err)
+				}
+				blankInner = nil // (which inner source Value delegates to after a rejected SetSource is not asserted)
+				if err != nil && errors.Is(err, errVerify) {
+					mirrorInvalid(id, true)
 				}
 			case err != nil:
 				r.fail("C20.blank", "SetSource(static) failed in state %s: %v", r.state, err)
@@ -917,7 +1010,7 @@ func (r *wrapRun) wrapped(c *ClientSpec, blank *sourcewrap.Blank, inner *wInnerW
 				r.fail("C20.blank", "Watch was called on a source whose Value had failed")
 			}
 		case "set-watch", "set-watch-eager":
-			iw := &wInnerWatch{wInner: wInner{id: id, own: "Stamp"}}
+			iw := &wInnerWatch{wInner: wInner{id: id, own: "Stamp", invalid: op.Str == "invalid" && op.K == "set-watch"}}
 			if op.K == "set-watch-eager" {
 				iw.eager = id + 1<<33
 			}
@@ -938,6 +1031,22 @@ func (r *wrapRun) wrapped(c *ClientSpec, blank *sourcewrap.Blank, inner *wInnerW
 				r.probes["replace-watching-refused"]++
 				if err == nil {
 					r.fail("C20.blank", "SetSource replaced a watching inner source")
+				}
+				continue
+			}
+			if iw.invalid {
+				// its first value is rejected: the error comes back, the watcher is
+				// never started, the Blank keeps its slot
+				r.probes["setsource-watching-rejected-by-verify"]++
+				if err == nil || !errors.Is(err, errVerify) {
+					r.fail("C20.error-swallowed", "SetSource of a watching source whose value Verify rejects returned %v", err)
+				}
+				if iw.wa != nil {
+					r.fail("C20.blank", "Watch was called on a source whose first value had been rejected")
+				}
+				blankInner = nil
+				if err != nil && errors.Is(err, errVerify) {
+					mirrorInvalid(id, true)
 				}
 				continue
 			}
